@@ -383,7 +383,8 @@ def generic_cases(draw):
     n = draw(st.one_of(st.integers(0, 12), st.sampled_from([0, 1, 2, 3, 255, 256, 401, 600]), st.integers(0, 600)))
     seed = draw(st.binary(min_size=1, max_size=6))
     dt = draw(st.sampled_from(DATA_TYPES))
-    status = draw(st.sampled_from([0, 0, 0, 1, 2, 4, 5, 8, 9, 0x0E, 0x13, 0x14, 0x1E, 0x26, 0x55, 0xD0, 0xFF]))
+    status = draw(st.one_of(st.sampled_from([0, 0, 0, 1, 2, 4, 5, 8, 9, 0x0E, 0x13, 0x14, 0x1E, 0x26, 0x55, 0xD0, 0xFF]),
+                            st.sampled_from([0, 0]), st.integers(1, 255).filter(lambda x: x != 6)))   # any general status is a refusal
     if dt is not None and draw(st.booleans()):
         try:
             v = draw(_values(dt))
@@ -397,7 +398,8 @@ def generic_cases(draw):
     # (an Unconnected Send asked for without a route - route_path False or an empty list - is a wrapper with an empty route path)
     forms = ["default", "true", "false", "string", "list", "bytes"] + (["empty-list"] if mode == "ucsend" else [])
     return {"host": draw(st.sampled_from(HOSTS)), "path_hops": draw(st.lists(hop, max_size=3)),
-            "service": draw(st.one_of(st.integers(1, 0x7F), st.integers(1, 0x7F).map(lambda v: bytes([v])))),
+            "service": draw(st.one_of(st.integers(1, 0x7F), st.integers(1, 0x7F).map(lambda v: bytes([v])),
+                                      st.sampled_from([0x01, 0x03, 0x04, 0x0E, 0x10, 0x4C, 0x4D, 0x4B, 0x54, 0x4E]))),   # the common services more often
             "cls": cls, "inst": draw(id_arg()), "attr": draw(st.one_of(st.none(), st.just(0), st.just(b""), id_arg())),
             "data": (seed * (n // len(seed) + 1))[:n], "mode": mode,
             "route_form": draw(st.sampled_from(forms)), "route_seps": draw(st.sampled_from(["/", "/", "\\", ",", "/,", ",\\/"])),
@@ -439,8 +441,23 @@ def nontrivial(c):
     return len(c["data"]) > 0 or any(val_of(c[k]) > 255 for k in ("cls", "inst") if c[k] is not None) or (c["mode"] == "ucsend" and (c["path_hops"] or c["route_form"] in ("string", "list", "bytes")))
 
 
+SWEEP_SERVICES = [0x01, 0x03, 0x04, 0x0E, 0x10, 0x4B, 0x4C, 0x4D, 0x4E, 0x52, 0x54, 0x5B]
+
+
+def sweep_case(svc, status, k):
+    """request service x general status (every status but 0 and 6): a refusal whatever the service"""
+    mode = ["connected", "ucmm", "ucsend"][k % 3]
+    return {"host": "10.0.0.5", "path_hops": [["bp", 2]] if k % 2 else [], "service": svc, "cls": 0x8B if svc in (3, 4) else 1, "inst": 1,
+            "attr": None if svc in (1, 3, 4) else 5, "data": b"\x01\x00\x06\x00" if svc in (3, 4) else b"", "mode": mode, "route_form": "default",
+            "route_seps": "/", "route_hops": [["bp", 1]], "data_type": [None, R.T("UINT")][k % 2], "status": status, "ext": [[], [0x0100]][(k // 2) % 2],
+            "reply": b"\x01\x00\x06\x00\x00\x00" + bytes(8), "session": 0x0BADF00D, "cid": 0x00C0FFEE, "fo_policy": ["large", "std"][k % 2]}
+
+
 def plan(tier):
     jobs = []
+    svcs = SWEEP_SERVICES if tier == "quick" else list(range(1, 0x80))
+    for i in range(0, len(svcs), 3):
+        jobs.append({"part": "status-sweep", "services": svcs[i:i + 3], "modes": 1 if tier == "quick" else 3})
     n = 12 if tier == "quick" else 64
     for _ in range(n):
         jobs.append({"part": "generic", "examples": 300 if tier == "quick" else 9000})
@@ -450,6 +467,17 @@ def plan(tier):
 
 
 def run_job(ctx, job):
+    if job["part"] == "status-sweep":
+        for svc in job["services"]:
+            for status in range(1, 256):
+                if status == 6:
+                    continue
+                for m in range(job["modes"]):
+                    c = sweep_case(svc, status, (svc + status + m) if job["modes"] == 1 else m + 3 * ((svc + status) % 4))
+                    ctx.case(("sweep", svc, status, c["mode"], c["data_type"] is not None), True, ["status-sweep", c["mode"], "refused"])
+                    for d in check_generic(c):
+                        ctx.violation(d, "generic", c)
+        return
     if job["part"] == "generic":
         hyp_search(ctx, "generic", generic_cases(), lambda c: (check_generic(c), nontrivial(c), classes_of(c)), job["examples"])
     else:
